@@ -231,7 +231,7 @@ PROPERTY = dict(
                           faults='EMFILE above k; one transient failure at open call 0..2 (also with the caller continuing after the error); one permanently failing path'),
             'thorough': dict(writes='<=5 over 3 paths', descriptor_limit_k='1..3 (faults: 2..4)', maxHandles='1..3', pruneEvery='1..3')},
     outside=['validity of concatenated gzip members (zlib; exercised by the replay on the real file system)',
-             'bamSplitByTag: real BAM encoding / indexing (replay only), -head, tag values that need file-name cleaning', 'more than 3 distinct target files'],
+             'bamSplitByTag: real BAM encoding / indexing (replay only), -head, tag values that need file-name cleaning', 'more than 3 distinct target files', 'HandleLimiter.write with method=None', 'errors raised by close()', 'pruneEvery not being configurable through FastqHandle'],
     assumptions=['MemFS contract: w truncates, a appends, each open handle holds one descriptor, open raises EMFILE when k descriptors are in use',
                  'an escaping exception is legitimate only if the failing open() happened while no other handle was open',
                  'time.time replaced by a strictly increasing counter'],
